@@ -124,13 +124,16 @@ uint32_t RIFF::get_id() const
  */
 void RIFF::add_chunk(const class RIFF& new_chunk)
 {
+	// Copy the payload first: new_chunk may be this very chunk (a list nested into itself),
+	// and the alignment byte below must not become part of the copy.
+	auto new_data = new_chunk.data;
+
 	// If data size is uneven, insert an aligment byte.
 	if(data.size() & 1)
 		data.push_back(0);
 
 	if(type == TYPE_RIFF || type == TYPE_LIST)
 	{
-		auto new_data = new_chunk.data;
 		write_be32(data,data.size(),new_chunk.get_type());
 		write_le32(data,data.size(),new_data.size());
 		data.insert(data.end(),new_data.begin(),new_data.end());
